@@ -1,26 +1,151 @@
+def _c08_callgrind(ctx):
+    """C08 layer 3: self instruction counts of the leaf assembly routines under valgrind/callgrind must not depend
+    on the secret.  Generated secrets (adversarial catalogue + uniform, from VERIF_SEED) are executed by the worker
+    test of harness/internal/zzc08 in one process per (operation, configuration); callgrind dumps one profile per item
+    (--dump-before on the region marker) and every item's per-symbol counts must equal those of the first item."""
+    import os, sys, json, random, subprocess, time, hashlib, glob, concurrent.futures
+    sys.path.insert(0, os.path.join(ctx["verif"], "tools"))
+    import cgparse
+    viols, errs = [], []
+    ops = {  # op -> (public length, secret length)
+        "ed25519.Sign": (40, 32), "x25519.ScalarMult": (32, 32), "x25519.ScalarBaseMult": (0, 32),
+        "curve.EdwardsPoint.Mul": (8, 32), "curve.EdwardsPoint.MulBasepoint": (0, 32),
+        "curve.EdwardsPoint.MultiscalarMul": (0, 64), "merlin.witness": (20, 48),
+    }
+    configs = {"default": "asyncpreemptoff=1", "noavx2": "asyncpreemptoff=1,cpu.avx2=off"}
+    binp = ctx["bin_path"]("internal/zzc08", "default")
+    if not os.path.exists(binp):
+        return [], ["C08 callgrind layer: worker binary missing"], {}
+    outroot = os.path.join(ctx["dirs"]["logs"], "callgrind")
+    os.makedirs(outroot, exist_ok=True)
+
+    def secrets(rng, n, k):
+        cat = [bytes(n), b"\xff" * n, b"\x88" * n, b"\x77" * n, b"\x08" * n, bytes([1]) + bytes(n - 1), b"\x80" * n, b"\x7f" * n]
+        out = cat[:min(k, len(cat))]
+        while len(out) < k:
+            out.append(bytes(rng.getrandbits(8) for _ in range(n)))
+        return out
+
+    def run(op, cfg, pub, secs, tag):
+        prefix = os.path.join(outroot, "%s.%s.%s" % (op.replace("/", "_"), cfg, tag), "out")
+        os.makedirs(os.path.dirname(prefix), exist_ok=True)
+        env = dict(os.environ, GODEBUG=configs[cfg], GOGC="off", GOMAXPROCS="1", C08_OP=op,
+                   C08_ITEMS=",".join("%s:%s" % (pub.hex() or "00", s.hex()) for s in secs))
+        cmd = ["valgrind", "--tool=callgrind", "--callgrind-out-file=" + prefix, "--dump-before=*c08AsmMark*",
+               binp, "-test.run", "^TestC08AsmWorker$", "-test.timeout", "0"]
+        try:
+            p = subprocess.run(cmd, env=env, cwd=os.path.dirname(prefix), stdout=subprocess.PIPE, stderr=subprocess.STDOUT,
+                               text=True, errors="replace", timeout=1800)
+        except (OSError, subprocess.TimeoutExpired) as e:
+            return op, cfg, pub, secs, None, "valgrind could not run: %r" % (e,)
+        if p.returncode != 0 or "PASS" not in p.stdout:
+            return op, cfg, pub, secs, None, "worker under valgrind failed (rc=%s): %s" % (p.returncode, p.stdout[-400:])
+        parts = cgparse.parse_parts(prefix)
+        # parts[0] = start-up + warm-up; parts[1..k] = items; last = tail
+        if len(parts) < len(secs) + 1:
+            return op, cfg, pub, secs, None, "expected %d profile parts, got %d" % (len(secs) + 2, len(parts))
+        return op, cfg, pub, secs, parts[1:1 + len(secs)], None
+
+    rng = random.Random(ctx["seed"] * 1000003 + 8)
+    tasks = []
+    if ctx["replay"]:
+        rf = json.load(open(ctx["replay"]))
+        if rf.get("test") != "C08AsmCounts":
+            return [], [], {}
+        c = rf["case"]
+        tasks.append((c["op"], c["config"], bytes.fromhex(c["pub"]), [bytes.fromhex(c["s1"]), bytes.fromhex(c["s2"])], "replay"))
+    else:
+        k = 8 if ctx["tier"] == "quick" else 64
+        rounds = 1 if ctx["tier"] == "quick" else 4
+        for op, (pl, sl) in sorted(ops.items()):
+            for cfg in sorted(configs):
+                for rd in range(rounds):
+                    pub = bytes(rng.getrandbits(8) for _ in range(pl))
+                    tasks.append((op, cfg, pub, secrets(rng, sl, k), "r%d" % rd))
+    items = skipped = 0
+    symbols = set()
+    samples = []
+    distinct = set()
+    with concurrent.futures.ThreadPoolExecutor(max_workers=ctx["jobs"]) as ex:
+        for op, cfg, pub, secs, parts, err in ex.map(lambda t: run(*t), tasks):
+            if err:
+                errs.append("C08 callgrind %s[%s]: %s" % (op, cfg, err))
+                continue
+            base = parts[0]
+            if not base:
+                errs.append("C08 callgrind %s[%s]: no assembly symbols observed" % (op, cfg))
+                continue
+            symbols.update(base)
+            # callgrind's shadow call stack is occasionally confused by Go's stack switching; it then reports a
+            # function under a second context name (fn'2) and misattributes a few instructions.  Such profile parts are
+            # measurement noise: they are skipped (counted), never judged.
+            clean = [(s, prt) for s, prt in zip(secs, parts) if prt and not any("'" in k_ for k_ in prt)]
+            skipped += len(secs) - len(clean)
+            if len(clean) < 2:
+                errs.append("C08 callgrind %s[%s]: fewer than two clean profile parts" % (op, cfg))
+                continue
+            base = clean[0][1]
+            secs = [c_[0] for c_ in clean]
+            parts = [c_[1] for c_ in clean]
+            for i, (s, prt) in enumerate(zip(secs, parts)):
+                items += 1
+                distinct.add(hashlib.sha256(op.encode() + cfg.encode() + pub + s).hexdigest()[:16])
+                if len(samples) < 6 and i in (1, 2):
+                    samples.append({"test": "C08AsmCounts", "op": op, "config": cfg, "pub": pub.hex(), "secret": s.hex(),
+                                    "asm_self_instruction_counts": {k_.split("/")[-1]: v for k_, v in sorted(prt.items())}})
+                if prt != base:
+                    diffs = {k_: (base.get(k_), prt.get(k_)) for k_ in set(base) | set(prt) if base.get(k_) != prt.get(k_)}
+                    case = {"op": op, "config": cfg, "pub": pub.hex(), "s1": secs[0].hex(), "s2": s.hex()}
+                    rp = os.path.join(ctx["dirs"]["replays"], "C08AsmCounts.%s.%s.json" % (op.replace("/", "_"), cfg))
+                    sym = sorted(diffs)[0].split("/")[-1]
+                    json.dump({"test": "C08AsmCounts", "config": cfg, "signature": "ct:asm-instruction-count:" + sym,
+                               "detail": "self instruction counts differ between the two secrets: %r" % (diffs,), "case": case},
+                              open(rp, "w"), indent=1)
+                    viols.append(("C08AsmCounts", "ct:asm-instruction-count:" + sym, ctx["replay"] or rp, cfg))
+                    break
+    if not ctx["replay"] and items:
+        # feed the shared statistics so the evidence totals include this layer
+        st = {"test": "C08AsmCounts(callgrind)", "config": "default+noavx2", "evals": items, "cases": items, "nontrivial_cases": items,
+              "distinct_hashes": [int(h_, 16) for h_ in sorted(distinct)], "distinct_capped": False,
+              "classes": {"asm-symbol:" + s.split("/")[-1]: 1 for s in sorted(symbols)}, "samples": samples, "known": {},
+              "exhaustive": False, "extra": {}}
+        json.dump(st, open(os.path.join(ctx["dirs"]["stats"], "C08AsmCounts.%d.json" % os.getpid()), "w"))
+    return viols, errs, {"callgrind_items": items, "callgrind_items_skipped_as_noise": skipped, "callgrind_asm_symbols_judged": sorted(s.split("/")[-1] for s in symbols)}
+
+
 PROPS["C08"] = {
     "title": "Secret-dependent operations run in constant time at the source level",
     "level": "exploration",
-    "engine": "rapid + tools/ctinstr (source instrumenter)",
+    "engine": "rapid + tools/ctinstr (source instrumenter) + guard pages + valgrind/callgrind",
+    "post": _c08_callgrind,
     "technique": ("two-run non-interference testing: property-based generation of (operation, public input, secret pair); the "
                   "instrumented build records every basic block, short-circuit operand, non-constant index/slice bound and "
-                  "variable-time compare position; traces of the two secrets must be identical"),
+                  "variable-time compare position and the traces of the two secrets must be identical; exhaustive guard-page "
+                  "placement for the assembly table lookups; callgrind instruction counts of the assembly leaves across generated secrets"),
     "level_text": ("Generated-input search over pairs of secrets (adversarial pairs: 0 vs dense, radix-16 digits all -8 vs all 7, "
                    "single-bit and top/low-byte differences, uniform) for every operation that is documented constant time, on an "
                    "instrumented copy of the current tree: equal traces are required, the first diverging probe (file:line) is "
-                   "reported. Decides source-level control flow and memory indices of Go code in all three Go backends; does not "
-                   "see below the source level. Cannot prove absence over all pairs."),
+                   "reported. Decides source-level control flow and memory indices of Go code in all three Go backends; the assembly "
+                   "lookups are decided by an exhaustive (routine, split, mirror, digit) guard-page enumeration of their memory access set, "
+                   "and all assembly leaves by equality of callgrind self instruction counts across generated secrets. Does not see "
+                   "below the instruction level. Cannot prove absence over all pairs."),
     "level_note": ("Trusted: the instrumenter (tools/ctinstr: textual probe insertion, validated by running the repo's own test suite on "
-                   "the instrumented copy), rapid. Verification/decoding/*Vartime routines are out of scope by the statement and "
-                   "are never given secrets. Assembly routines are opaque at this layer (purego build traces their Go equivalents)."),
-    "rule": ("case = (operation from a registry of ~40 constant-time entry points, public parameters, two secrets of equal length "
+                   "the instrumented copy), rapid, valgrind. Verification/decoding/*Vartime routines are out of scope by the statement and "
+                   "are never given secrets."),
+    "rule": ("L1: case = (operation from a registry of ~40 constant-time entry points, public parameters, two secrets of equal length "
              "drawn from an adversarial pair catalogue); oracle = equality of the 128-bit digests of the two probe traces; "
-             "non-trivial = the two secrets differ in at least one bit; distinct = FNV-64 of the serialised case"),
+             "non-trivial = the two secrets differ in at least one bit; distinct = FNV-64 of the serialised case. "
+             "L2: exhaustive (lookup routine, split k=1..7, mirror, digit 0..8): the lookup must fault on the protected part for every digit. "
+             "L3: (operation, public input, secret) items under callgrind; every item's per-assembly-symbol self instruction counts must equal "
+             "those of the first item of its group; distinct = SHA-256 of (op, config, pub, secret)"),
     "assumptions": ["source-level instrumentation preserves semantics (repo test-suite passes on the instrumented copy)",
-                    "constant-time at the source level only: compiler and micro-architecture are out of scope"],
+                    "constant-time at the source / instruction-count level only: micro-architecture is out of scope"],
     "units": [{
         "pkg": "curve", "configs": ["default"],
         "tests": {"TestC08GuardPages": LIST(), "TestC08GuardPagesOracleSelfTest": LIST()},
+    }, {
+        "pkg": "internal/zzc08", "configs": ["default"],
+        "tests": {"TestC08AsmWorker": LIST()},
     }, {
         "pkg": "internal/zzcttest", "ct": True, "configs": {"quick": ["default", "purego", "force32bit"], "thorough": ["default", "noavx2", "purego", "force32bit"]},
         "tests": {
